@@ -12,7 +12,7 @@ RUN_FN = "run_case"
 HARNESS_BIN = "c12"
 HARNESS_BINS = ["c12"]
 SHRINK_KEEP = ("ohash", "oscore")
-CLAIMED = False
+CLAIMED = True
 RULE = ("cases: histories over 2 clusters, 7 addresses, 3 backend ids, 3 sticky ids of add / re-add (same "
         "(address,id): config update) / remove-by-address, health-check results with thresholds 1-3 and health "
         "reset, connection failures (back-off windows of seeded length) / successes / forced down+waiting states, "
